@@ -263,7 +263,6 @@ func GenProgram(r *rand.Rand, nfiles int) *Program {
 			}
 		}
 		takenNames := map[string]bool{}
-		dotUsed := false
 		for _, l := range Libs {
 			if !used[l.Key] {
 				continue
@@ -271,10 +270,10 @@ func GenProgram(r *rand.Rand, nfiles int) *Program {
 			choice := r.Intn(4)
 			name := ""
 			switch {
-			case choice == 0 && l.CanDot && !dotUsed:
-				// a dot-import makes the member names visible: only one per file (avoids clashes)
+			case choice == 0 && l.CanDot:
+				// a dot-import makes the member names visible; the two libraries that can be
+				// dot-imported export disjoint names, so one file may dot-import both
 				fs.Naming[l.Key] = "."
-				dotUsed = true
 				continue
 			case choice == 1:
 				name = aliases[r.Intn(len(aliases))]
